@@ -161,8 +161,8 @@ def check(rep, tier):
             S2 = r["S"]
             with impl.quiet():
                 S2.seed = cfg["seed"] + 17
-                S2._rng = fr.CountingRng(S2._rng)
-                S2.run()
+                with fr.patched_rng(fr.CountingRng):
+                    S2.run()
             r2 = dict(r, XT=np.array(S2.X_T), XS=np.array(S2.X_sigma), stats={k: np.array(v) for k, v in S2.stats.items()},
                       hshelf=np.broadcast_to(np.asarray(S2.H_shelf, dtype=float), (r["N"],)).copy())
             nv = len(rep.violations)
